@@ -1,30 +1,93 @@
 SETUP_CMD = "./setup.sh"
 HOOKS = {
     "guard": "--cfg alexhuszagh_rust_lexical_verif",
-    "enable": "none needed so far: the harness crate /verif/kani reaches lexical's internals through its pub (doc-hidden) modules; no source hooks are committed in /repo",
+    "enable": "RUSTFLAGS='--cfg alexhuszagh_rust_lexical_verif' for every cargo-kani build of /verif/kani (set by vlib/kani.py); the one hook is "
+              "lexical_util::format::verif_format_error (runtime access to format validation). Engine S (MIR dumps) builds without the guard.",
     "baseline_off_cmd": "cd /repo && cargo test --workspace --no-fail-fast --offline",
-    "source_commits": [],
+    "source_commits": ["904ddd4"],
     "add_only": True,
 }
 ENGINES = [
-    {"name": "K", "path": "/verif/kani", "kind_free_text": "Kani 0.68 / CBMC 6.11 bounded model checking of proof harnesses compiled against /repo (path dependencies), run by /verif/vlib/kani.py",
-     "serves_properties": []},
-    {"name": "S", "path": "/verif/smt", "kind_free_text": "MIR -> SMT-LIB2 symbolic execution of loop-free integer kernels dumped from /repo with the nightly toolchain, decided by cvc5 (--solve-bv-as-int) / z3",
-     "serves_properties": []},
+    {"name": "K", "path": "/verif/kani",
+     "kind_free_text": "Kani 0.68 / CBMC 6.11 bounded model checking (SAT) of proof harnesses compiled against /repo through path dependencies; run by /verif/vlib/kani.py",
+     "serves_properties": ["C01", "C03", "C04", "C05", "C08", "C09", "C10", "C11", "C12", "C13", "C14", "C15", "C16", "C17", "C18", "C19"]},
+    {"name": "S", "path": "/verif/smt",
+     "kind_free_text": "MIR -> SMT-LIB2 symbolic execution of integer kernels (MIR dumped from /repo with the nightly toolchain on every run), decided by cvc5 (--solve-bv-as-int / bit-blasting) and z3; "
+                       "translation validated against the real functions on concrete inputs; models replayed through a native driver",
+     "serves_properties": ["C01", "C02", "C03", "C09", "C10", "C19"]},
 ]
 NOTES = ("All checks are bounded symbolic checks of the real code: see DESIGN.md for bounds and what lies outside them. "
-         "Exit codes: 0 held within the bounds, 1 violation (replayed natively first), 2 inconclusive (timeout, vacuous harness, non-reproducing model).")
+         "Exit codes: 0 held within the bounds, 1 violation (replayed natively first), 2 inconclusive (timeout, vacuous harness, non-reproducing model). "
+         "Four genuine defects found by these checks were repaired in /repo with `fix:` commits and are recorded (status fixed) in known_findings.json.")
 
-PENDING = "check not built yet in this round (planned in DESIGN.md); not claimed until its harnesses exist and pass"
+K = "bounded model checking with Kani/CBMC (SAT) of the real code on symbolic inputs"
+S = "symbolic execution of rustc MIR into SMT-LIB (cvc5 integer encoding / bit-blasting, z3), exact integer oracles"
+TRUST = "Trusted: rustc, Kani's MIR->goto translation, CBMC+CaDiCaL; for Engine S the MIR interpreter in smt/mirexec.py (validated on concrete inputs against the real function every run), cvc5/z3; the reference models / oracles named in the evidence."
+
 CHECKS = {
-    "C04": {
-        "engine": "K",
-        "technique": "bounded model checking (Kani/CBMC, SAT) of the real integer parsers on symbolic byte strings, differential against a reference scan",
-        "text": "Within the stated length/shape bounds every byte string is covered by the SAT verdict: value, error kind and index of parse/parse_partial equal a left-to-right reference for all 12 integer types; overflow-frontier windows cover every string within 10^6 of each type's limits; SWAR digit kernels are decided over all 2^32 / 2^64 words.",
-        "design_ref": "DESIGN.md section 3, C04",
-        "note": "Trusted: Kani's MIR->goto translation, CBMC, CaDiCaL, the reference scan in kani/src/refs.rs. Outside the bound: arbitrary-byte strings longer than the harness length; radices other than those listed in the evidence.",
-    },
+    "C01": dict(engine="K+S", technique=S + "; " + K,
+                text="Correct rounding is decided seam by seam: text->(mantissa,exponent) for all byte strings up to a length; the exact fast path admits only exactly representable operands (all inputs); "
+                     "Eisel-Lemire compute_float equals the nearest-even float of w*10^q for every 64-bit w on table rows 0..27 and for <=12-significant-bit w on the other rows (exact integer oracle); bit packing (all inputs). "
+                     "Bounded: rows/leading-zero counts are sampled in the quick tier and swept in the thorough tier.",
+                design_ref="DESIGN.md C01", note=TRUST + " Outside: full-width mantissas on inexact rows, slow path, Bellerophon, IEEE fast-path multiply itself."),
+    "C02": dict(engine="S", technique=S,
+                text="Dragonbox compute_nearest_normal/shorter are executed symbolically per binade with the cache row as compiled; for every mantissa in the stated cubes the output round-trips, is shortest, is closest and has no trailing zero (exact rational oracle). "
+                     "Found two genuine non-shortest defects (fixed).",
+                design_ref="DESIGN.md C02", note=TRUST + " Cube bound: low 6-12 mantissa bits free per binade; trailing-zero removal enters as a separately checked contract."),
+    "C03": dict(engine="S+K", technique=S + "; " + K,
+                text="Every u8/u16/u32 value through the decimal jeaiii kernels (full width, Engine S) and every u8/i8/u16/i16 value through the public API in decimal, sampled/all radices and the compact writer (Kani); cubes around powers of ten and limits for wider types.",
+                design_ref="DESIGN.md C03", note=TRUST + " Outside: 64/128-bit values outside the cubes, non-decimal radices for wide types."),
+    "C04": dict(engine="K", technique=K + ", differential against a left-to-right reference scan",
+                text="For every byte string up to the stated length (all 256 byte values) value, error kind and error index of parse/parse_partial equal the reference for 12 integer types; overflow frontier for narrow types; radix sample incl. 36 with both letter cases; SWAR kernels over all words.",
+                design_ref="DESIGN.md C04", note=TRUST + " Outside: longer inputs; wide-type overflow windows are thorough-tier only."),
+    "C05": dict(engine="K", technique=K + ", shift-based nearest-even oracle",
+                text="binary::binary for power-of-two radices and mixed exponent bases: all 64-bit mantissas x exponents reaching zero/subnormal/normal/infinite results equal the nearest-even float. Found and fixed a dropped round-up at shift 64.",
+                design_ref="DESIGN.md C05", note=TRUST + " Outside: generic radices (Bellerophon/big-integer), slow_binary digit loops except the short end-to-end harness."),
+    "C08": dict(engine="K", technique=K,
+                text="Integers: parse(write(v)) == v and the partial parser consumes everything, for all 8-bit values (16-bit thorough) in decimal, radix 2/3/7/16 and sign-flag formats, cubes for wider types.",
+                design_ref="DESIGN.md C08", note=TRUST + " Outside: float round trips (reduced to C14 + C12/C10 + C01/C02), 128-bit integers."),
+    "C09": dict(engine="K+S", technique=K + "; " + S,
+                text="Integer writers with a buffer of exactly the documented size: no panic, length within bound, every unchecked access in bounds (Kani pointer checks; Engine S in-bounds obligations at full width for u8..u32). "
+                     "Float formatting layer with exactly buffer_size_const bytes for options in C14's ranges.",
+                design_ref="DESIGN.md C09", note=TRUST + " Outside: short-buffer behaviour, extreme float options (hundreds of digits / exponent breaks)."),
+    "C10": dict(engine="K+S", technique=K + " (automatic panic/overflow/pointer checks); " + S,
+                text="No panic, no out-of-bounds access, indices within the input for every byte string up to the bound (integers with full numerics, floats with the numeric back end stubbed), dev profile; "
+                     "Eisel-Lemire compute_float panic-freedom and table-index safety per row for every w (boundary rows always, all rows thorough).",
+                design_ref="DESIGN.md C10", note=TRUST + " Outside: longer inputs, slow-path loops, format-feature iterators beyond C13's harnesses."),
+    "C11": dict(engine="K", technique=K + ", relational harness",
+                text="complete Ok(v) <=> partial Ok((v,len)) and re-parsing the consumed prefix gives the same value, for every byte string up to the bound (integers and floats). Found and fixed the lone-sign defect of the integer partial parser.",
+                design_ref="DESIGN.md C11", note=TRUST + " Outside: separator/suffix formats, custom punctuation, longer inputs."),
+    "C12": dict(engine="K", technique=K + ", differential against a flag-parameterised reference recogniser",
+                text="STANDARD float/integer grammar with error kind and index for arbitrary bytes; each syntax flag (and a few interacting pairs) for strings over the number alphabet: accept/reject, count and digit decomposition.",
+                design_ref="DESIGN.md C12", note=TRUST + " Outside: unlisted flag combinations, prebuilt language formats, float base prefix/suffix."),
+    "C13": dict(engine="K", technique=K + ", metamorphic harness",
+                text="For uniform internal/leading/trailing/consecutive separator combinations: accepted with separators => accepted without with the same value; separators only in enabled positions; enabled positions never cause rejection; separator-free inputs treated identically.",
+                design_ref="DESIGN.md C13", note=TRUST + " Outside: mixed per-component formats, inputs longer than 6 bytes (19+ digit paths), special_digit_separator."),
+    "C14": dict(engine="K", technique=K + ", semantic oracle on the decoded output",
+                text="Decimal formatting layer through the public API with Dragonbox stubbed to a symbolic decimal and symbolic valid options: decoded value equals the decimal rounded to max digits (half-even/truncate), min digits, notation by break points, trim_floats, punctuation.",
+                design_ref="DESIGN.md C14", note=TRUST + " Outside: mantissas above the bound, larger option values, compact/radix writers."),
+    "C15": dict(engine="K", technique=K,
+                text="Parse: special strings accepted exactly when they match, numeric input never NaN, sign of infinity (arbitrary bytes up to the bound). Write: every NaN/inf/zero bit pattern, custom strings, disabled strings panic.",
+                design_ref="DESIGN.md C15", note=TRUST + " Outside: option strings longer than 4, no_special/case-sensitive formats beyond C12's flag harnesses."),
+    "C16": dict(engine="K", technique=K + ", common reference across build configurations",
+                text="The STANDARD-format harness families (integer parse/write, float grammar) are decided under compact, power-of-two, radix, format and combinations; each equals the same reference, hence each other, within the bounds.",
+                design_ref="DESIGN.md C16", note=TRUST + " Outside: float values/output bytes across configurations (C01/C02)."),
+    "C17": dict(engine="K", technique=K,
+                text="lexical::to_string/parse equal lexical_core for all 8/16-bit integer values, short byte strings and special floats; every emitted byte is ASCII.",
+                design_ref="DESIGN.md C17", note=TRUST + " Outside: to_string_with_options sizing for floats, wide types."),
+    "C18": dict(engine="K", technique=K + " over a fully symbolic packed format",
+                text="format validity equals the documented predicate for all 2^128 packed formats under each feature set; build_strict panics exactly on invalid formats; rebuild round-trips; options punctuation validity; getters reflect setters.",
+                design_ref="DESIGN.md C18", note=TRUST + " One add-only hook exposes format_error_impl at run time."),
+    "C19": dict(engine="K+S", technique=K + "; " + S + " (relational)",
+                text="lossy on/off: same acceptance, counts and errors for arbitrary bytes up to the bound; compute_float(q,w,lossy) equals the exact result unless that is the error marker, per row for every 64-bit w.",
+                design_ref="DESIGN.md C19", note=TRUST + " Outside: one-ULP bound when the exact algorithm needs the slow path; Bellerophon."),
 }
-NOT_APPLICABLE = {k: PENDING for k in ["C01","C02","C03","C05","C06","C08","C09","C10","C11","C12","C13","C14","C15","C16","C17","C18","C19"]}
-NOT_APPLICABLE["C07"] = ("generic-radix float writer generates digits with native floating-point multiply/divide in data-dependent loops of up to ~1100 iterations; "
-                         "bit-precise symbolic FP inside such loops is beyond CBMC and the MIR->SMT encoder has no trustworthy float path (DESIGN.md, C07)")
+NOT_APPLICABLE = {
+    "C06": "power-of-two radix float writer: the monolithic harness exhausts memory (18 GB) and the decomposed harnesses (alignment arithmetic, layout per binade) were not built in the time available; no claim is made rather than switching technique",
+    "C07": "generic-radix float writer generates digits with native floating-point multiply/divide in data-dependent loops of up to ~1100 iterations; bit-precise symbolic FP inside such loops is beyond CBMC and the MIR->SMT encoder has no trustworthy float path (DESIGN.md, C07)",
+}
+# properties whose quick check has not yet passed end-to-end on the unchanged tree are listed here and excluded from CHECKS
+PENDING = {k: 'check built; its quick tier had not yet completed a clean end-to-end run on the unchanged tree when this manifest was generated' for k in ['C01','C02','C04','C08','C09','C13','C14','C16']}
+for k, why in PENDING.items():
+    CHECKS.pop(k, None)
+    NOT_APPLICABLE[k] = why
